@@ -55,6 +55,13 @@ theorem syncCancel_eq (b : Browser) :
     syncCancel b = { b with cancelled := true, timer := false, listening := false, queued := 0, zcTracked := false } := by
   simp [syncCancel, asyncCancel_eq, cancelJoins_eq, remove_listener_forgets_holds]
 
+/-- the timeout handle of a wait and the notification both leave a finished future alone (`_set_future_none_if_not_done`) -/
+theorem timerOnFinished_eq : timerOnFinished = [] := by
+  simp [timerOnFinished, waiter_timer_guarded_holds, waiter_guard_skips_done]
+
+theorem notifyOnFinished_eq : notifyOnFinished = [] := by
+  simp [notifyOnFinished, resolve_all_guarded_holds, waiter_guard_skips_done]
+
 theorem gated_sub (h : Host) (l : List Out) : gated h l = [] ∨ gated h l = l := by
   unfold gated
   split
@@ -709,6 +716,38 @@ theorem mid_step (h : Host) (b : Block) (hb : b.mid = true) (nog : ∀ i, b ≠ 
         · simp only [Option.some.injEq, Prod.mk.injEq] at hs
           obtain ⟨rfl, rfl⟩ := hs
           exact ⟨rfl, rfl, hreg, h0, rfl⟩
+  | waitStart =>
+    simp only [step, Option.some.injEq, Prod.mk.injEq] at hs
+    obtain ⟨rfl, rfl⟩ := hs
+    exact ⟨rfl, rfl, hreg, h0, rfl⟩
+  | notifyAll =>
+    simp only [step, Option.some.injEq, Prod.mk.injEq] at hs
+    obtain ⟨rfl, rfl⟩ := hs
+    refine ⟨rfl, rfl, hreg, h0, ?_⟩
+    split
+    · rw [notifyOnFinished_eq]; rfl
+    · rfl
+  | waitFire i =>
+    simp only [step] at hs
+    split at hs
+    · simp only [Option.some.injEq, Prod.mk.injEq] at hs
+      obtain ⟨rfl, rfl⟩ := hs
+      exact ⟨rfl, rfl, hreg, h0, rfl⟩
+    · simp only [Option.some.injEq, Prod.mk.injEq] at hs
+      obtain ⟨rfl, rfl⟩ := hs
+      refine ⟨rfl, rfl, hreg, h0, ?_⟩
+      rw [timerOnFinished_eq]; rfl
+    · simp at hs
+  | waitResume i =>
+    simp only [step] at hs
+    split at hs
+    · simp only [Option.some.injEq, Prod.mk.injEq] at hs
+      obtain ⟨rfl, rfl⟩ := hs
+      exact ⟨rfl, rfl, hreg, h0, rfl⟩
+    · simp only [Option.some.injEq, Prod.mk.injEq] at hs
+      obtain ⟨rfl, rfl⟩ := hs
+      exact ⟨rfl, rfl, hreg, h0, rfl⟩
+    · simp at hs
   | closeCall sync =>
     simp only [step] at hs
     split at hs
@@ -964,7 +1003,9 @@ theorem loopError_site (h : Host) (b : Block) (h' : Host) (o : List Out) (hs : s
           | exact not_loopError_replicate _ _ (by intro hh; cases hh) he
           | (split at he
              · simp at he
-             · exact not_loopError_replicate _ _ (by intro hh; cases hh) he)))
+             · exact not_loopError_replicate _ _ (by intro hh; cases hh) he)
+          | (rw [timerOnFinished_eq] at he; simp at he; done)
+          | (rw [notifyOnFinished_eq] at he; simp at he; done)))
 
 /-! ### every close call makes progress, and nobody else moves its program counter -/
 
